@@ -2,7 +2,8 @@
     Property theorems only; the model is Io/IndivParams.v (written line by line from
     src/leaspy/io/outputs/individual_parameters.py), the proofs are in Io/IndivParamsProofs.v. *)
 From Coq Require Import List String Ascii Bool Arith QArith Permutation.
-From Leaspy Require Import Io.IndivParams Io.IndivParamsProofs.
+From Leaspy Require Import Io.IndivParams Io.IndivParamsProofs Io.IndivParamsSrc Io.IndivParamsSrcProofs Io.IndivParamsSrcTie.
+From LeaspyGen Require Import GenC16.
 Import ListNotations.
 Open Scope string_scope.
 
@@ -229,3 +230,160 @@ Example C16_extension_examples :
   map get_extension ["foo"; "foo."; "foo.txt"; ".csv"; "a.b/foo"; "foo.tar.csv"; "x/..a.json"; "foo.CSV"]
   = [None; Some ""; Some "txt"; None; None; Some "csv"; Some "json"; Some "CSV"].
 Proof. reflexivity. Qed.
+
+(* ------------------------------------------------------------------------------------------ source level (T1) *)
+
+(** From here on the statements are about [gen_*]: the tables REGENERATED on every run from the python source of
+    individual_parameters.py (gen/GenC16.v, harness/translate/c16_container.py), run by the interpreter of Io/IndivParamsSrc.v. *)
+
+(** [add_individual_parameters] as the ordered program read from the source, with the type table read from the source, computes
+    the hand-written [add] — and, which the hand-written model only asserted, a rejection leaves the three attributes as they
+    were ([SRaised e c] carries the object at the moment the exception leaves the method).  [keys_agree] (identifiers = keys of
+    the parameter dict, part of [wf]) is needed because [d[index] = ...] would otherwise overwrite. *)
+Theorem C16_src_add_is_model : forall (c : container) (id : pyid) (arg : pyarg),
+  keys_agree c -> src_add gen_types gen_add c id arg = lift_add c (add c id arg).
+Proof. exact gen_add_is_model. Qed.
+Print Assumptions C16_src_add_is_model.
+
+Example C16_src_keys_agree_example : keys_agree empty /\ forall c, wf c -> keys_agree c.
+Proof. split; [reflexivity | exact wf_keys_agree]. Qed.
+
+(** ... and [keys_agree] is kept by every accepted source-level addition, so every sequence of calls (the way [from_dataframe],
+    [from_pytorch], [subset] and every user build a container) computes the model's [add_all]; from the empty object no hypothesis
+    is left. *)
+Theorem C16_src_add_all_is_model :
+  (forall c id arg c', keys_agree c -> src_add gen_types gen_add c id arg = SAdded c' -> keys_agree c')
+  /\ (forall c l, keys_agree c -> src_add_all gen_types gen_add c l = add_all c l)
+  /\ (forall l, src_add_all gen_types gen_add empty l = add_all empty l).
+Proof.
+  split; [exact gen_keys_agree_kept|]. split; [exact gen_add_all_is_model | intros l; apply gen_add_all_is_model; reflexivity].
+Qed.
+Print Assumptions C16_src_add_all_is_model.
+
+(** [C16_add_rejects_partial] over the regenerated program: same four kinds of malformed addition, the input error, and the
+    object untouched — without any hypothesis on the container. *)
+Theorem C16_src_add_rejects_partial : forall (c : container) (id : pyid) (arg : pyarg),
+  id = IdNotStr
+  \/ (exists s, id = IdStr s /\ In s (indices c))
+  \/ arg = ArgNotDict
+  \/ (exists d, arg = ArgDict d /\
+        (Exists (fun kv => head_unsupported (snd kv)) d
+         \/ exists sh, shapes c = Some sh /\ shapes_eqb sh (pshapes d) = false)) ->
+  src_add gen_types gen_add c id arg = SRaised InputError c.
+Proof. exact gen_add_rejects. Qed.
+Print Assumptions C16_src_add_rejects_partial.
+
+(** [bool] derives from [int]: the source refuses it because its test is [type(v) in [...]] (identity), not [isinstance]. *)
+Theorem C16_src_bool_rejected : forall (c : container) (id : pyid) (k : string) (d1 d2 : list (string * pyval)),
+  src_add gen_types gen_add c id (ArgDict (d1 ++ (k, VAtom ABool) :: d2)) = SRaised InputError c
+  /\ src_type_ok gen_types (VAtom ABool) = false /\ src_type_ok gen_types (VList [ABool]) = false.
+Proof. exact gen_add_bool_rejected. Qed.
+Print Assumptions C16_src_bool_rejected.
+
+(** ... and the same list under [isinstance] would accept it: the distinction is not vacuous *)
+Example C16_src_isinstance_would_accept_bool :
+  src_type_ok (mkTT IsInstance (tt_types gen_types) FirstElement) (VAtom ABool) = true
+  /\ src_add ref_types dup_after_insert empty (IdStr "a") (ArgDict [("xi", VAtom (ANum KFloat 1))])
+     = SRaised InputError (mkC ["a"] [] (Some [("xi", [])])).
+Proof. split; reflexivity. Qed.
+
+Theorem C16_src_add_accepts : forall (c : container) (s : string) (d : list (string * pyval)),
+  keys_agree c -> ~ In s (indices c) ->
+  Forall (fun kv => fully_supported (snd kv) = true) d ->
+  (forall sh, shapes c = Some sh -> shapes_eqb sh (pshapes d) = true) ->
+  exists e, store_all (map (fun kv => (fst kv, tolist (snd kv))) d) = Some e
+    /\ entry_shapes e = pshapes d /\ map fst e = map fst d
+    /\ src_add gen_types gen_add c (IdStr s) (ArgDict d) =
+       SAdded (mkC (indices c ++ [s]) (params c ++ [(s, e)])
+                   (Some (match shapes c with None => pshapes d | Some sh => sh end))).
+Proof. exact gen_add_accepts. Qed.
+Print Assumptions C16_src_add_accepts.
+
+(** the conversions with the iteration sources, the label rule and the cut rule read from the source are the hand-written ones *)
+Theorem C16_src_conversions_are_model :
+  (forall c, src_to_dataframe gen_df_rows_from gen_col_rule c = to_dataframe c)
+  /\ (forall t, src_from_dataframe gen_types gen_add gen_split_rule t = from_dataframe t)
+  /\ (forall ids d, src_from_pytorch gen_types gen_add ids d = from_pytorch ids d)
+  /\ (forall rnd c, src_to_pytorch rnd gen_torch_iter c = to_pytorch rnd c)
+  /\ (forall c ids, src_subset gen_types gen_add gen_subset_rule c ids = subset c ids)
+  /\ (forall p, src_load_format gen_load_dispatch p = load_format p)
+  /\ (forall c p, src_save_target gen_save_rule c p = save_target c p)
+  /\ (forall c, src_csv_roundtrip gen_types gen_add gen_df_rows_from gen_col_rule gen_split_rule c = csv_roundtrip c).
+Proof. exact gen_conversions_are_model. Qed.
+Print Assumptions C16_src_conversions_are_model.
+
+(** order preservation and the tensor round trip, for [to_pytorch] iterating what the SOURCE iterates *)
+Theorem C16_src_torch_roundtrip : forall (rnd : Q -> Q) (c : container) (sh : shapes_t),
+  wf c -> shapes c = Some sh ->
+  src_to_pytorch rnd gen_torch_iter c = Ok (indices c, torch_dict rnd c sh)
+  /\ map fst (torch_dict rnd c sh) = map fst sh
+  /\ Forall (fun kt => List.length (snd kt) = List.length (indices c)) (torch_dict rnd c sh)
+  /\ src_from_pytorch gen_types gen_add (map IdStr (indices c)) (map (fun kt => (fst kt, T2 (snd kt))) (torch_dict rnd c sh))
+     = Ok (vec_container rnd c sh).
+Proof. exact gen_torch_roundtrip. Qed.
+Print Assumptions C16_src_torch_roundtrip.
+
+(** iterating the dict instead of the index list is invisible on containers built by additions and visible on others *)
+Example C16_src_dict_order_example :
+  (forall rnd c, keys_agree c -> src_to_pytorch rnd (mkTI SrcParamKeys SrcIndices) c = to_pytorch rnd c)
+  /\ let c := mkC ["b"; "a"] [("a", [("xi", Vec [(KFloat, 1)])]); ("b", [("xi", Vec [(KFloat, 2)])])] (Some [("xi", [1%nat])]) in
+     src_to_pytorch (fun q => q) (mkTI SrcParamKeys SrcIndices) c = Ok (["b"; "a"], [("xi", [[1]; [2]])])
+     /\ to_pytorch (fun q => q) c = Ok (["b"; "a"], [("xi", [[2]; [1]])]).
+Proof. split; [exact src_to_pytorch_dict_order | exact dict_order_differs]. Qed.
+
+Theorem C16_src_table_roundtrip_partial : forall (c : container) (sh : shapes_t),
+  wf c -> shapes c = Some sh -> table_safe sh ->
+  src_to_dataframe gen_df_rows_from gen_col_rule c = Ok (table_of c sh)
+  /\ src_from_dataframe gen_types gen_add gen_split_rule (table_of c sh) = Ok (vec_container (fun q => q) c sh)
+  /\ map (fun ps => (fst ps, [size_of_shape (snd ps)])) sh = sh.
+Proof. exact gen_table_roundtrip. Qed.
+Print Assumptions C16_src_table_roundtrip_partial.
+
+Theorem C16_src_csv_roundtrip_partial : forall (c : container) (sh : shapes_t),
+  wf c -> shapes c = Some sh -> table_safe sh ->
+  Forall (fun ps => fst ps <> "") sh -> Forall (fun i => ~ In i na_tokens) (indices c) ->
+  src_csv_roundtrip gen_types gen_add gen_df_rows_from gen_col_rule gen_split_rule c = Ok (vec_container (fun q => q) c sh).
+Proof. exact gen_csv_roundtrip. Qed.
+Print Assumptions C16_src_csv_roundtrip_partial.
+
+Theorem C16_src_scalar_refuted :
+  exists c, add_all empty [(IdStr "index-1", ArgDict [("xi", VAtom (ANum KFloat (1 # 10))); ("tau", VAtom (ANum KInt 70));
+                                                      ("sources", VList [ANum KFloat (1 # 10); ANum KFloat (-3 # 10)])])] = Ok c
+            /\ src_to_dataframe gen_df_rows_from gen_col_rule c = Err Crash.
+Proof. exact gen_scalar_refuted. Qed.
+Print Assumptions C16_src_scalar_refuted.
+
+Theorem C16_src_underscore_refuted :
+  exists c t c', add_all empty [(IdStr "a", ArgDict [("random_intercept", VList [ANum KFloat (1 # 2)]);
+                                                     ("random_slope_age", VList [ANum KFloat (1 # 4)])])] = Ok c
+    /\ src_to_dataframe gen_df_rows_from gen_col_rule c = Ok t /\ src_from_dataframe gen_types gen_add gen_split_rule t = Ok c'
+    /\ shapes c' = Some [("random", [2%nat])].
+Proof. exact gen_underscore_refuted. Qed.
+Print Assumptions C16_src_underscore_refuted.
+
+(** the other cut ([rsplit]) is a different function: it is not what the source does today *)
+Example C16_src_rsplit_differs :
+  src_group_key (RSplitLast "_") "w_0_1" = "w_0" /\ src_group_key gen_split_rule "w_0_1" = "w".
+Proof. split; reflexivity. Qed.
+
+(** save(json) / load over the member table of [_save_json] and the attribute table of [_load_json] read from the source *)
+Theorem C16_src_json_roundtrip : forall (c : container) (sh : shapes_t),
+  shapes c = Some sh -> json_serialisable c = true ->
+  exists file, src_save_json gen_json_members c = Ok file
+    /\ src_load_json (fill_of gen_builders) file empty
+       = Ok (mkC (indices c) (params_map (value_map_kind kind_after_json) (params c)) (Some sh))
+    /\ (native c = true -> src_load_json (fill_of gen_builders) file empty = Ok c).
+Proof. exact gen_json_roundtrip. Qed.
+Print Assumptions C16_src_json_roundtrip.
+
+(** the attributes of an instance are the model's fields; only [__init__], [add_individual_parameters] and [_load_json] write
+    them; [_load_json] assigns all three; every other builder goes through [add_individual_parameters]; what the duplicate test
+    reads is an attribute the json reader fills (no private set left empty by a reader) *)
+Theorem C16_src_load_fills :
+  gen_attributes = ["_indices"; "_individual_parameters"; "_parameters_shape"; "_default_saving_type"]
+  /\ gen_writers = ["__init__"; "add_individual_parameters"; "_load_json"]
+  /\ (forall f, filled (fill_of gen_builders) f = true)
+  /\ (forall m b, In (m, b) gen_builders -> m <> "_load_json" -> b = ViaAdd \/ b = ViaMethod "from_dataframe")
+  /\ (forall s, In s (dup_sources gen_add) -> exists f, source_field s = Some f /\ filled (fill_of gen_builders) f = true).
+Proof. exact gen_load_fills. Qed.
+Print Assumptions C16_src_load_fills.
